@@ -81,9 +81,15 @@ PREFIXY = [P('TrainX', meta_name='train_x', params=[par('x', default=1)]),
 EXCL = [P('Load', params=[par('x', default=1)]), P('Report', inputs=[inp('Load')]), P('Extra', inputs=[inp('load', 'name')])]
 ABSTRACT = [P('Base', abstract=True, params=[par('x', default=1)]), P('Impl', params=[par('x', default=1)]),
             P('Use', inputs=[inp('Impl')])]
-PIPES = {'diamond': family.DIAMOND, 'pattern': family.PATTERN, 'optional': family.OPTIONAL, 'prefixy': PREFIXY,
+EXACTPAT = [P('PartA', group='parts', params=[par('x', default=1)]), P('PartAb', group='parts', meta_name='part_ab'),
+            P('PartAReport', group='parts', meta_name='part_a_report', inputs=[inp('PartA')]),
+            P('Exact', inputs=[inp('~parts:part_a', 'name')]), P('Alt', inputs=[inp('~parts:part_(a|ab)', 'name')])]
+SHORTFORM = [P('Scale', group='features', params=[par('x', default=1)]), P('Scale2', meta_name='scale'),
+             P('UseBoth', inputs=[inp('features:scale', 'name'), inp('scale', 'name')]),
+             P('UseBothRev', inputs=[inp('scale', 'name'), inp('features:scale', 'name')])]
+PIPES = {'exactpat': EXACTPAT, 'shortform': SHORTFORM, 'diamond': family.DIAMOND, 'pattern': family.PATTERN, 'optional': family.OPTIONAL, 'prefixy': PREFIXY,
          'chain3': family.CHAIN3, 'excl': EXCL, 'abstract': ABSTRACT}
-VALS = {'diamond': {'x': 1, 'right_value': 2}, 'pattern': {'x': 1}, 'optional': {'x': 1}, 'prefixy': {}, 'chain3': {'x': 1},
+VALS = {'exactpat': {}, 'shortform': {}, 'diamond': {'x': 1, 'right_value': 2}, 'pattern': {'x': 1}, 'optional': {'x': 1}, 'prefixy': {}, 'chain3': {'x': 1},
         'excl': {}, 'abstract': {}}
 MOUNTS = ['root', 'train', 'a::b', 'two:train,tr', 'two:n,nn', 'nested']
 
